@@ -463,7 +463,7 @@ func (rn *runner) dump(tg *target) map[string]string {
 			if def.IsIdNotFound(err) {
 				d[id] = "None"
 			} else {
-				d[id] = "(Some zero_task) (* dump error: " + strings.ReplaceAll(err.Error(), "*)", "* )") + " *)"
+				d[id] = "(Some zero_task) " + cq.Comment("dump error: "+err.Error())
 			}
 			continue
 		}
@@ -690,7 +690,7 @@ func (rn *runner) doFind(rich bool) {
 		if err != nil {
 			res = cq.Err(err, isCtxErr)
 			if res == "(RErr EOther)" {
-				res += " (* " + strings.ReplaceAll(err.Error(), "*)", "* )") + " *)"
+				res += " " + cq.Comment(err.Error())
 			}
 		} else {
 			res = "(RTasks " + cq.Tasks(ts) + ")"
